@@ -283,14 +283,9 @@ impl<'a, E: EndiannessWrite, V: EncodingVersion> XTypesSerializer<'a, E, V> {
             TypeKind::ALIAS => todo!(),
             TypeKind::BITMASK => todo!(),
             TypeKind::ANNOTATION => todo!(),
-            TypeKind::ENUM | TypeKind::STRUCTURE => {
+            TypeKind::ENUM | TypeKind::STRUCTURE | TypeKind::UNION => {
                 for v in v.get_complex_values(member_id)? {
                     self.serialize_t_as_nested(v)?;
-                }
-            }
-            TypeKind::UNION => {
-                for v in v.get_complex_values(member_id)? {
-                    self.serialize_funion_type(v)?;
                 }
             }
             TypeKind::BITSET => todo!(),
